@@ -2,7 +2,7 @@
 EXTENDS Runs
 MCInputs == {[kind |-> "dir", name |-> "treeA"], [kind |-> "dir", name |-> "treeB"],
              [kind |-> "file", name |-> "solo.cmake"], [kind |-> "file", name |-> "other.cmake"]}
-MCSpellings == {"rel", "abs", "trailing", "dot"}
+MCSpellings == {"rel", "abs", "trailing", "dot", "dotdot"}    \* dotdot: ".." from a sub-directory, or through "treeA/.."
 MCCwds == {"parent", "elsewhere", "root"}
 MCLocations == {"locA", "locB"}
 MCPerms == {"sorted", "reversed", "shuffled"}
@@ -12,7 +12,9 @@ MCGenInputs == {G("file", "IN/solo.cmake", FALSE), G("flatdir", "IN/flat", TRUE)
                 G("missing", "IN/nothing", FALSE), G("syntaxerror", "IN/broken.cmake", FALSE),
                 G("linkeddir", "IN/linkA", TRUE), G("linkedfile", "IN/linksolo.cmake", FALSE), G("brokentop", "IN/brokentree", TRUE)}
 MCExtras == {<<>>, <<"-p", "PFX">>, <<"-e", "sub">>, <<"-s", "SFILE">>, <<"-p", "PFX", "-e", "y.cmake">>, <<"-e", "sub/", "-s", "SFILE", "-p", "P2">>,
-             <<"-e", "sub", "-e", "y.cmake">>, <<"-p", "PFX", "-e", "PFX">>, <<"-e", "k", "-e", "k">>}
+             <<"-e", "sub", "-e", "y.cmake">>, <<"-p", "PFX", "-e", "PFX">>, <<"-e", "k", "-e", "k">>,
+             \* arguments are forwarded verbatim: a blank or a backslash inside one argument stays inside it
+             <<"-p", "two words">>, <<"-e", "s\\[ub\\]/y.cmake", "-p", "a  b">>}
 NoDev == {}
 CurrentDev == {}
 ASSUME C19_Argv
